@@ -671,8 +671,12 @@ impl Scenario for TxHistory {
                     continue;
                 }
                 4 => {
-                    let kind = *rng.pick(&["wire", "wire", "json", "cbor"]);
-                    events.push(json!({"op": "restart", "obj": o, "kind": kind}));
+                    let kind = *rng.pick(&["wire", "wire", "json", "cbor", "json_edit"]);
+                    events.push(json!({"op": "restart", "obj": o, "kind": kind, "edit": *rng.pick(&["output_value", "sequence", "vout"]), "r": rng.below(16)}));
+                    if kind == "json_edit" {
+                        // the memo a document might have carried along is read next
+                        hot = Some((o, if rng.chance(1, 2) { 0 } else { 1 }, 1));
+                    }
                 }
                 5 => {
                     if objs.len() < 4 {
@@ -1245,9 +1249,65 @@ impl Scenario for TxHistory {
                 "restart" => {
                     let kind = jstr(ev, "kind").to_string();
                     arg_class = kind.clone();
-                    let before = objs[o].tx.to_bytes().unwrap_or_default();
+                    let mut before = objs[o].tx.to_bytes().unwrap_or_default();
+                    let mut edited_model: Option<Model> = None;
                     let restored: Option<Transaction> = match kind.as_str() {
                         "wire" => lib!("from_bytes", Transaction::from_bytes(&before)).ok(),
+                        "json_edit" => {
+                            // the exported document is edited by whoever holds it before it is imported again (one number changed):
+                            // whatever else the document carries along must not outlive the edit
+                            match lib!("to_json_string", objs[o].tx.to_json_string()) {
+                                Ok(s) => {
+                                    let mut doc: Value = serde_json::from_str(&s).unwrap_or(Value::Null);
+                                    let mut m2 = objs[o].model.clone();
+                                    let r = ju64(ev, "r") as usize;
+                                    let done = match jstr(ev, "edit") {
+                                        "output_value" if !m2.outs.is_empty() => {
+                                            let i = r % m2.outs.len();
+                                            m2.outs[i].value = if m2.outs[i].value == u64::MAX { u64::MAX - 1 } else { m2.outs[i].value + 1 };
+                                            match doc.get_mut("outputs").and_then(|o| o.get_mut(i)).and_then(|o| o.get_mut("value")) {
+                                                Some(v) => {
+                                                    *v = json!(m2.outs[i].value);
+                                                    true
+                                                }
+                                                None => false,
+                                            }
+                                        }
+                                        "sequence" if !m2.ins.is_empty() => {
+                                            let i = r % m2.ins.len();
+                                            m2.ins[i].seq ^= 1;
+                                            match doc.get_mut("inputs").and_then(|o| o.get_mut(i)).and_then(|o| o.get_mut("sequence")) {
+                                                Some(v) => {
+                                                    *v = json!(m2.ins[i].seq);
+                                                    true
+                                                }
+                                                None => false,
+                                            }
+                                        }
+                                        "vout" if !m2.ins.is_empty() => {
+                                            let i = r % m2.ins.len();
+                                            m2.ins[i].vout ^= 1;
+                                            match doc.get_mut("inputs").and_then(|o| o.get_mut(i)).and_then(|o| o.get_mut("vout")) {
+                                                Some(v) => {
+                                                    *v = json!(m2.ins[i].vout);
+                                                    true
+                                                }
+                                                None => false,
+                                            }
+                                        }
+                                        _ => false,
+                                    };
+                                    if done && objs[o].model_valid {
+                                        before = m2.serialise();
+                                        edited_model = Some(m2);
+                                        lib!("from_json_string", Transaction::from_json_string(&doc.to_string())).ok()
+                                    } else {
+                                        None
+                                    }
+                                }
+                                Err(_) => None,
+                            }
+                        }
                         "json" => match lib!("to_json_string", objs[o].tx.to_json_string()) {
                             Ok(s) => lib!("from_json_string", Transaction::from_json_string(&s)).ok(),
                             Err(_) => None,
@@ -1277,7 +1337,15 @@ impl Scenario for TxHistory {
                         ctx.probe("restored_object_carries_memo");
                     }
                     objs[o].tx = restored;
-                    objs[o].primed = false;
+                    if let Some(m2) = edited_model {
+                        objs[o].model = m2;
+                        objs[o].last_mut = "restart-json_edit".into();
+                        ctx.probe("restart_with_edited_document");
+                    }
+                    // a wire parse is history-free by construction; a document may carry whatever its exporter put into it
+                    if kind == "wire" {
+                        objs[o].primed = false;
+                    }
                     touched_cache_ok = true;
                 }
                 _ => {
